@@ -132,6 +132,22 @@ theorem scan_eq_elems (d : Nat) (fs : List Fmt) (tsh : List Nat) (ish : Option (
   intro hC hU
   exact ho (by rw [hC]; decide) (by rw [hU]; exact Option.some_ne_none _)
 
+/-- A depth-first walk of the whole encoded tensor through the handle interface — scan the top
+    fiber; for every element continue in the fiber its payload designates, the parent's scan
+    staying open; on the leaf rank collect the non-zero values — reads back exactly the
+    tensor's content, for every descriptor, with or without an imposed shape. -/
+theorem walk_eq_content (d : Nat) (fs : List Fmt) (tsh : List Nat) (ish : Option (List Nat))
+    (t : List (Int × Tree Int Int d))
+    (hfs : fs.length = d + 1) (hwf : wfB (κ := Int) (ν := Int) (d + 1) t = true)
+    (hin : inEff (d + 1) fs tsh ish t = true) :
+    walkM (encode d fs tsh ish t).fibs 0 = content (κ := Int) (ν := Int) (0 : Int) (d + 1) t := by
+  have hl := cd_encF_fibs_len d fs tsh ish 0 (List.replicate (d + 1) (0, 0)) t
+  have h := cd_walk_encF d fs tsh ish 0 (List.replicate (d + 1) (0, 0)) t
+    (List.replicate (d + 1) []) (List.replicate (d + 1) []) hfs hwf hin
+    (cd_CntInv_replicate fs (d + 1)) (cd_lenOK_replicate (d + 1) (d + 1)) (by simp) (by simp)
+  rw [zipApp_replicate_nil_right (d + 1) _ hl, zipApp_replicate_nil (d + 1) _ hl] at h
+  exact h
+
 /-- Coordinate lookup in an encoded coordinate-list fiber (`coordToHandle`: two short paths and
     a ceil-mid binary search) returns the handle of the first stored coordinate not below the
     query, None when there is none. -/
@@ -193,6 +209,10 @@ example : ((encode 0 [.U] [0] none ([] : List (Int × Tree Int Int 0))).fibs.fla
 example : ((encode 1 [.C, .C] [0, 0] none ([] : List (Int × Tree Int Int 1))).fibs.flatten.map (·.getSize)) = [some 0] := by decide
 
 example : (((encode 2 [.C, .B, .U] [3, 3, 3] none sampleT).fibs.flatten).map (·.words)) = [6, 1, 1, 3, 3] := by decide
+
+example := walk_eq_content 2 [.B, .C, .B] [3, 3, 3] (some [4, 3, 5]) sampleT (by decide) (by decide) (by decide)
+
+example : walkM (encode 2 [.B, .B, .U] [3, 3, 3] none sampleT).fibs 0 = [([0, 1, 0], 7), ([2, 0, 1], -3)] := by decide
 
 end Codec
 end Ft
